@@ -367,6 +367,29 @@ def sharing(tier, seed):
             derive(g, ["face_lon", "face_x", "edge_x", "n_nodes_per_face", "edge_node_connectivity", "face_areas"])
         return g
 
+    # the arrays a grid was built from stay the caller's: a later public mutator of the grid (normalisation of off-unit
+    # Cartesian coordinates handed to from_topology) must not write into them
+    for mesh in meshes[: (40 if thorough else 4)]:
+        lon0, lat0 = np.array(mesh["lon"], float), np.array(mesh["lat"], float)
+        x0, y0, z0 = mg.xyz_of(lon0, lat0)
+        cx, cy, cz = 2.0 * x0, 2.0 * y0, 2.0 * z0
+        keep = (cx.copy(), cy.copy(), cz.copy())
+        cases += 1
+        distinct.add((mesh["name"], "caller_xyz_after_normalize"))
+        try:
+            gg = ux.Grid.from_topology(node_lon=lon0, node_lat=lat0, face_node_connectivity=np.array(mesh["faces"]), fill_value=FILL,
+                                       node_x=cx, node_y=cy, node_z=cz)
+            gg.normalize_cartesian_coordinates()
+        except Exception:
+            gg = None
+        if gg is not None:
+            ch = [n for n, a_, k_ in zip(("node_x", "node_y", "node_z"), (cx, cy, cz), keep) if not np.array_equal(a_, k_)]
+            if ch:
+                fail("caller_array_modified:normalize_cartesian_coordinates",
+                     f"normalize_cartesian_coordinates() on a grid built by from_topology(node_x=...) overwrote the caller's arrays {ch}",
+                     "the arrays a grid is built from are not modified by building the grid or by later operations on it",
+                     {"mesh": mesh["name"], "construction": "from_topology(node_x=2x, node_y=2y, node_z=2z)", "history": ["normalize_cartesian_coordinates()"]}, ch)
+
     for mesh in meshes[: (40 if thorough else 4)]:
         for prepared in ("plain", "scaled_xyz", "derived"):
             for mname, mut in mutators():
